@@ -4,7 +4,7 @@ CONSTANTS
   MaxRefs = 2
   Mode = "names"
   Alphabet = {0, 1, 2, 3, 97, 192}
-  MaxBody = 7
+  MaxBody = 6
   Bug = "none"
 SPECIFICATION NameSpec
 INVARIANTS NoBadRead CursorInBounds NameAgree NameStepBound
